@@ -786,10 +786,26 @@ pub fn run_c24(ctx: &Ctx, rep: &mut Report) {
     for case in ctx.case_range(n) {
         rep.current_case = case;
         let mut rng = ctx.rng("c24", case);
-        let (text, how): (Vec<u8>, &str) = match rng.below(4) {
+        let (text, how): (Vec<u8>, &str) = match rng.below(5) {
             0 => {
                 let len = rng.below(120);
                 (rng.bytes(len), "random")
+            }
+            4 => {
+                // syntactically fine files whose RDATA is (often) invalid for its
+                // type and therefore written in RFC 3597 generic form
+                let nr = rng.range(1, 4);
+                let mut recs = gen_records(&mut rng, &origins[0], nr);
+                for r in recs.iter_mut() {
+                    if rng.chance(2, 3) {
+                        r.rdata = rr::mutate(&mut rng, &r.rdata);
+                        if rng.chance(1, 3) {
+                            r.rdata = rr::mutate(&mut rng, &r.rdata);
+                        }
+                    }
+                }
+                let (t, _, _, _) = render_file(&mut rng, &recs, PState::default(), &origins);
+                (t, "generic-near-valid")
             }
             1 => {
                 let k = rng.below(30);
